@@ -4,7 +4,7 @@ SupOfDef == [a \in Actors |-> IF a = "A" THEN "S" ELSE NoA]
 MaxMsgsDef == [a \in Actors |-> IF a = "A" THEN 2 ELSE 0]
 MaxInjectDef == [a \in Actors |-> IF a = "A" THEN 1 ELSE 0]
 EnvOpsDef == [a \in Actors |-> IF a = "A" THEN {"stop", "kill", "drain", "abort"} ELSE {"kill"}]
-EnvOpsSelf == [a \in Actors |-> IF a = "A" THEN {"stop", "selfkill", "selfstop", "drain"} ELSE {}]
+EnvOpsSelf == [a \in Actors |-> IF a = "A" THEN {"stop", "selfkill", "selfstop", "drain", "joinpg"} ELSE {}]
 MonPairsSelf == {<<"S", "A">>}
 \* three-level tree for the thorough tier
 SupOf3 == [a \in Actors |-> IF a = "A" THEN "S" ELSE IF a = "B" THEN "A" ELSE NoA]
